@@ -679,6 +679,15 @@ class Analyzer:
     def call(self, n):
         f = n.func
         dn = dotted(f)
+        # NumPy `out=<array>`: the callee writes its result into that array (a view of it counts as the array)
+        for kw in n.keywords:
+            if kw.arg == "out":
+                root = kw.value
+                while isinstance(root, (ast.Subscript, ast.Attribute)) and self.field_of(root) is None:
+                    root = root.value
+                tgt = self.arg_target(root)
+                if tgt is not None:
+                    return {Path(writes=frozenset([tgt]), inplace=frozenset([tgt]))}
         if isinstance(f, ast.Attribute) and f.attr in INPLACE_ARG0 and n.args:
             tgt = self.arg_target(n.args[0])
             if tgt is not None:
